@@ -11,7 +11,7 @@ from numba_scfg.core.datastructures.basic_block import (
 
 from ..dotparse import DotError, parse
 from ..hier import Hier
-from ..kernel import shard_map
+from ..kernel import guarded, shard_map
 from ..progs import skeleton_sources
 from ..runner import Acc
 from ..sweep import exc_fingerprint, graph_case, graph_spec, rotate, staged, sweep
@@ -143,7 +143,7 @@ def check_function(label, src, acc: Acc):
     steps = (("0", lambda: None), ("J", flow.scfg.join_returns), ("JL", flow.scfg.restructure_loop), ("JLB", flow.scfg.restructure_branch))
     for stage, fn in steps:
         try:
-            fn()
+            guarded(fn)
         except Exception:  # noqa: BLE001  (C02)
             acc.counters["byteflow_stage_raised(C02)"] += 1
             return
